@@ -201,6 +201,11 @@ mod n {
     const CUBO: &str = include_str!(concat!(env!("CARGO_MANIFEST_DIR"), "/../hulc_tests/tests/cubo/cubo.ctehexml"));
 
     fn cubo_variant(off: (f32, f32, f32), dev: f32, outline: &[(f32, f32)]) -> String {
+        cubo_variant_turned(off, dev, outline, 0.0)
+    }
+
+    /// ... with the space itself turned within the building (AZIMUTH of the SPACE, clockwise like every BDL angle)
+    fn cubo_variant_turned(off: (f32, f32, f32), dev: f32, outline: &[(f32, f32)], space_az: f32) -> String {
         let mut s = CUBO.to_string();
         // building deviation from north (clockwise, degrees)
         let bp = s.find("= BUILD-PARAMETERS").expect("BUILD-PARAMETERS");
@@ -209,7 +214,7 @@ mod n {
         // space offset
         let sp = s.find("\"P01_E01\" = SPACE").expect("SPACE");
         let eol = sp + s[sp..].find('\n').unwrap();
-        s.insert_str(eol + 1, &format!("            X = {}\n            Y = {}\n            Z = {}\n", off.0, off.1, off.2));
+        s.insert_str(eol + 1, &format!("            X = {}\n            Y = {}\n            Z = {}\n{}", off.0, off.1, off.2, if space_az != 0.0 { format!("            AZIMUTH = {}\n", space_az) } else { String::new() }));
         // space outline
         let pg = s.find("\"P01_E01_Pol2\" = POLYGON").expect("space polygon");
         let end = pg + s[pg..].find("..").unwrap();
@@ -246,13 +251,19 @@ mod n {
 
     #[test]
     fn n_c03_conversion() {
-        drive("C03.conversion", "shipped project `cubo` re-written with space offset {(0,0,0),(3,7,0),(-4,2,1.5)} x building deviation {0,30,135,270} x outline {square 10x10, trapezoid}; parsed and converted by the real code; positions to 1 cm against the source definition", |c| {
+        drive("C03.conversion", "shipped project `cubo` re-written with space offset {(0,0,0),(3,7,0),(-4,2,1.5)} x building deviation {0,30,135,270} x space turned within the building by {0,30,250} (zero offset) x outline {square 10x10, trapezoid}; parsed and converted by the real code; positions to 1 cm against the source definition", |c| {
             let off = c.of(&[(0.0f32, 0.0f32, 0.0f32), (3.0, 7.0, 0.0), (-4.0, 2.0, 1.5)]);
             let dev = c.of(&[0.0f32, 30.0, 135.0, 270.0]);
+            // a space turned within the building: with a zero offset, so that the order of turning and shifting the
+            // space does not matter for the expected positions
+            let space_az = c.of(&[0.0f32, 30.0, 250.0]);
+            if space_az != 0.0 && off != (0.0, 0.0, 0.0) {
+                return;
+            }
             let square = c.flag();
             let outline: Vec<(f32, f32)> = if square { vec![(0.0, 0.0), (10.0, 0.0), (10.0, 10.0), (0.0, 10.0)] } else { vec![(0.0, 0.0), (10.0, 0.0), (8.0, 6.0), (1.0, 7.0)] };
-            c.note(format!("offset {:?} deviation {} outline {:?}", off, dev, outline));
-            let text = cubo_variant(off, dev, &outline);
+            c.note(format!("offset {:?} deviation {} space azimuth {} outline {:?}", off, dev, space_az, outline));
+            let text = cubo_variant_turned(off, dev, &outline, space_az);
             let data = match hulc::ctehexml::parse_with_catalog(&text) {
                 Ok(d) => d,
                 Err(e) => {
@@ -269,7 +280,8 @@ mod n {
             };
             // building coordinates -> world: turn clockwise by the deviation
             let rot = Rotation3::from_euler_angles(0.0, 0.0, -(dev as f32).to_radians());
-            let to_world = |x: f32, y: f32, z: f32| rot * point![x + off.0, y + off.1, z + off.2];
+            let rot_space = Rotation3::from_euler_angles(0.0, 0.0, -(space_az as f32).to_radians());
+            let to_world = |x: f32, y: f32, z: f32| rot * (rot_space * point![x, y, z] + Vector3::new(off.0, off.1, off.2));
             let centroid = {
                 let n = outline.len() as f32;
                 let (sx, sy) = outline.iter().fold((0.0, 0.0), |a, p| (a.0 + p.0, a.1 + p.1));
@@ -356,7 +368,7 @@ mod n {
             }
             // turning the building leaves areas, volumes, K and n50 unchanged (compared with the unturned variant)
             if dev != 0.0 {
-                let base = Model::try_from(&hulc::ctehexml::parse_with_catalog(&cubo_variant(off, 0.0, &outline)).unwrap()).unwrap();
+                let base = Model::try_from(&hulc::ctehexml::parse_with_catalog(&cubo_variant_turned(off, 0.0, &outline, space_az)).unwrap()).unwrap();
                 let (a, b) = (model.energy_indicators(), base.energy_indicators());
                 c.check("C03.rotation.invariants", (a.area_ref - b.area_ref).abs() < 0.011 && (a.vol_env_net - b.vol_env_net).abs() < 0.011 && (a.K_data.K - b.K_data.K).abs() < 1e-3 && (a.n50_data.n50 - b.n50_data.n50).abs() < 1e-3, || format!("turned by {}: A {} / {} V {} / {} K {} / {} n50 {} / {}", dev, a.area_ref, b.area_ref, a.vol_env_net, b.vol_env_net, a.K_data.K, b.K_data.K, a.n50_data.n50, b.n50_data.n50));
                 // every azimuth shifts by -dev (mod 360)
